@@ -33,6 +33,7 @@ import (
 	"strings"
 	"sync"
 	"sync/atomic"
+	"syscall"
 	"time"
 	"unsafe"
 
@@ -674,7 +675,7 @@ func c19Binary() (string, error) {
 		if repo == "" {
 			repo = "/repo"
 		}
-		// one executable per harness process; leftovers of earlier processes are swept after ten minutes
+		// leftovers of earlier processes are swept after ten minutes
 		dir := filepath.Join(os.TempDir(), "c19-fabio")
 		if err := os.MkdirAll(dir, 0o755); err != nil {
 			c19BinErr = err
@@ -687,12 +688,48 @@ func c19Binary() (string, error) {
 				}
 			}
 		}
-		c19BinPath = filepath.Join(dir, fmt.Sprintf("fabio-%d", os.Getpid()))
-		cmd := exec.Command("go", "build", "-o", c19BinPath, ".")
-		cmd.Dir = repo
-		if b, err := cmd.CombinedOutput(); err != nil {
-			c19BinErr = fmt.Errorf("go build %s: %v: %s", repo, err, b)
+		build := func(out string) error {
+			cmd := exec.Command("go", "build", "-o", out, ".")
+			cmd.Dir = repo
+			if b, err := cmd.CombinedOutput(); err != nil {
+				return fmt.Errorf("go build %s: %v: %s", repo, err, b)
+			}
+			return nil
 		}
+		// The shards and the three executable-driven streams of one check run are children of the same process and
+		// look at the same tree: they share one executable (built by whoever comes first, under a file lock), so that
+		// no shard measures while its siblings still link. It is only reused when it is younger than that parent.
+		ppid := os.Getppid()
+		if pi, err := os.Stat(fmt.Sprintf("/proc/%d", ppid)); err == nil && ppid > 1 {
+			h := uint32(2166136261)
+			for _, c := range []byte(repo) {
+				h = (h ^ uint32(c)) * 16777619
+			}
+			shared := filepath.Join(dir, fmt.Sprintf("fabio-p%d-%08x", ppid, h))
+			if lf, err := os.OpenFile(shared+".lock", os.O_CREATE|os.O_RDWR, 0o644); err == nil {
+				defer lf.Close()
+				if syscall.Flock(int(lf.Fd()), syscall.LOCK_EX) == nil {
+					defer syscall.Flock(int(lf.Fd()), syscall.LOCK_UN)
+					if bi, err := os.Stat(shared); err == nil && bi.ModTime().After(pi.ModTime()) && bi.Size() > 0 {
+						c19BinPath = shared
+						return
+					}
+					tmp := fmt.Sprintf("%s.%d", shared, os.Getpid())
+					if err := build(tmp); err != nil {
+						c19BinErr = err
+						return
+					}
+					if err := os.Rename(tmp, shared); err != nil {
+						c19BinErr = err
+						return
+					}
+					c19BinPath = shared
+					return
+				}
+			}
+		}
+		c19BinPath = filepath.Join(dir, fmt.Sprintf("fabio-%d", os.Getpid()))
+		c19BinErr = build(c19BinPath)
 	})
 	return c19BinPath, c19BinErr
 }
